@@ -13,6 +13,9 @@ on every path, hence under every interleaving:
  R5 summary completeness: the collector must not silently drop empty result slots (`flatten` /
     `filter_map` over the per-index Option slots).
  R6 lock discipline: the worker drops the receiver guard before running a job.
+ R6 shared counters are updated atomically: the progress counters are read and written by every worker thread, so each update is one
+    read-modify-write (`fetch_add`, `fetch_sub`, `fetch_update`, `compare_exchange`): no `store` of a value computed from a `load`
+    of the same atomic (two workers finishing together would lose a decrement and the tracker would report jobs still running).
 Not decided: interleaving-dependent ordering; progress totals under races.
 """
 from .. import lib as L
@@ -40,6 +43,7 @@ def op_calls(fn):
 
 
 def run(ctx):
+    r6_atomic_updates(ctx)
     facts = ctx.facts
     pj = ctx.fn(PJ, "anchor")
     closures = [facts.fns[c] for c in sorted(facts.closures_of.get(PJ, ()))]
@@ -252,3 +256,31 @@ def run(ctx):
                               "poisons the queue for every other worker", f.where(b), {"path_lines": [f.line(x) for x in bad]})
             else:
                 ctx.ok("R6", key, "MutexGuard dropped between recv and the job call", f.where(b))
+
+
+def r6_atomic_updates(ctx):
+    facts = ctx.facts
+    n = 0
+    for k, fn in sorted(facts.fns.items()):
+        if not k.startswith("batch::progress::BatchProgress::") and not k.startswith("batch::"):
+            continue
+        fl = None
+        for b, c, a, d, t, u in fn.calls():
+            if not (isinstance(c, dict) and L.short(c.get("p") or "") == "store" and "atomic" in (c.get("p") or "").lower()):
+                continue
+            n += 1
+            r = L.recv_of(fn, a)
+            field = (r[1][-1] if r and r[1] else "?")
+            key = "%s:store:%s" % (L.short(fn.parent or fn.id), field)
+            fl = fl or FL.flow(fn)
+            seen, drecs = fl.back_slice(FL.op_locals(a[1])) if len(a) > 1 else (set(), set())
+            loads = [fn.term(dd[1]) for dd in drecs if dd[0] == "call" and L.short(fn.term(dd[1])[1].get("p") or "") == "load"
+                     and "atomic" in (fn.term(dd[1])[1].get("p") or "").lower()]
+            same = [tt for tt in loads if (L.recv_of(fn, tt[2]) or (None, ["?"]))[1][-1:] == [field]]
+            if same:
+                ctx.violation("R6", key, "%s stores into the shared atomic `%s` a value computed from a `load` of the same atomic: the "
+                              "update is not one read-modify-write, so two threads doing it at the same time lose one of the updates "
+                              "(two workers finishing together leave `running_jobs` above 0 after the batch)" % (L.short(fn.parent or fn.id), field), fn.where(b))
+            else:
+                ctx.ok("R6", key, "store of a value that does not depend on the atomic's own previous value", fn.where(b))
+    ctx.counts["R6:atomic stores in batch::"] = n
